@@ -69,6 +69,35 @@ def canon(errs):
     return out
 
 
+def policy_text_old_format(pol, name='refmodel policy (deprecated directives)'):
+    """Same policy written with the deprecated per-type directives (hostkey_size_*, cakey_size_*, dh_modulus_size_*).
+    Only expressible when every CA type is the one the old format implies (ssh-rsa for RSA certificates, ssh-ed25519 otherwise)."""
+    base = dict(pol)
+    hs = base.pop('hostkey_sizes', None)
+    dh = base.pop('dh_modulus_sizes', None)
+    text = policy_text(base, name)
+    lines = []
+    for t, v in (hs or {}).items():
+        # the cakey directive must follow the hostkey directive of the same type
+        lines.append('hostkey_size_%s = %d' % (t, v['hostkey_size']))
+        if v.get('ca_key_type') and v.get('ca_key_size'):
+            lines.append('cakey_size_%s = %d' % (t, v['ca_key_size']))
+    for t, v in (dh or {}).items():
+        lines.append('dh_modulus_size_%s = %d' % (t, v))
+    return text + '\n'.join(lines) + '\n'
+
+
+def old_format_expressible(pol):
+    for t, v in (pol.get('hostkey_sizes') or {}).items():
+        if v.get('ca_key_type') and v.get('ca_key_size'):
+            implied = 'ssh-rsa' if t in ('ssh-rsa-cert-v01@openssh.com', 'rsa-sha2-256-cert-v01@openssh.com', 'rsa-sha2-512-cert-v01@openssh.com') else 'ssh-ed25519'
+            if v['ca_key_type'] != implied:
+                return False
+        elif v.get('ca_key_type') or v.get('ca_key_size'):
+            return False
+    return True
+
+
 def policy_text(pol, name='refmodel policy', client=False):
     import json
     lines = ['name = "%s"' % name, 'version = 1']
